@@ -331,7 +331,7 @@ Ltac eqb_cases :=
 Ltac cntsimp :=
   unfold snd_to;
   repeat (erewrite cnt_upd by eassumption);
-  unfold in_cs, pre_set, at_write, at_write_h; cbn [s_pc];
+  unfold in_cs, pre_set, at_write, at_write_h in *; cbn [s_pc];
   repeat match goal with H : s_pc _ = _ |- _ => rewrite H end.
 
 Ltac acbn := cbn [a_hs a_snd a_lst a_efd a_pc a_q a_incb] in *.
@@ -347,5 +347,22 @@ Proof.
   intros I St k. pose proof (i_busy _ I k) as Hb.
   destruct St; acbn; try exact Hb; cntsimp; unfold hupd; eqb_cases; cbn; unfold b2z; try lia.
   all: try (destruct (pending (a_hs a h)); cbn; eqb_cases; lia).
+Qed.
+
+Lemma in_remove_h k c l : In k (remove_h c l) <-> In k l /\ k <> c.
+Proof.
+  unfold remove_h. rewrite filter_In. split; intros [H1 H2]; split; auto.
+  - intros ->. rewrite Nat.eqb_refl in H2. discriminate.
+  - destruct (Nat.eqb_spec k c); auto. contradiction.
+Qed.
+
+(* handle status: only begin_close changes it *)
+Ltac hst_cases :=
+  unfold aopn, hupd in *; eqb_cases; cbn [hst publish add_busy set_pending set_unl run_cb begin_close] in *.
+
+Lemma pres_n2 a a' : AInv a -> astep a a' -> forall h, ~ aopn a' h -> pending (a_hs a' h) = true.
+Proof.
+  intros I St k. pose proof (i_n2 _ I k) as Hb.
+  destruct St; acbn; try exact Hb; hst_cases; cbn; auto.
   Show.
 Abort.
